@@ -146,4 +146,13 @@ def c04_5(c: Ctx) -> None:
     c03_1(c)
 
 
+
+@ob('C04.6', 'SHAPE/DOM', 'after a timeout inside the awaited subtree every pending result below it is cancelled, at every depth (same obligation as C10.4): otherwise an await in a '
+    'handler that was not itself cancelled returns an event that can never complete')
+def c04_6(c: Ctx) -> None:
+    from .c10 import c10_4
+
+    c10_4(c)
+
+
 OBLIGATIONS = ob.obs
